@@ -692,6 +692,12 @@ def main(run):
 
     # ---------------- oracle pieces ----------------
     def oracle_new(case, obj, c, before_ids):
+        try:
+            oracle_new_(case, obj, c, before_ids)
+        except Exception as e:  # noqa
+            run.oracle_violation("inspecting a new instance raised %s: %s" % (type(e).__name__, e), case)
+
+    def oracle_new_(case, obj, c, before_ids):
         """fresh per-instance attributes"""
         dct = c.reduce_args[2]
         for n, t in dct.items():
@@ -705,6 +711,12 @@ def main(run):
                     run.oracle_violation("per-instance attribute %s of a new instance shares mutable state with an older object" % n, case)
 
     def oracle_copy(case, how, x, c, proto=None):
+        try:
+            oracle_copy_(case, how, x, c, proto)
+        except Exception as e:  # noqa
+            run.oracle_violation("%s: reading the copy raised %s: %s" % (how, type(e).__name__, e), case)
+
+    def oracle_copy_(case, how, x, c, proto=None):
         kx = kind_of(x)
         sig = None
         if type(c).__name__ != type(x).__name__ or kind_of(c) != kx or \
@@ -748,6 +760,12 @@ def main(run):
                 run.oracle_violation("%s: unpickled object shares objects (class level included) with the original: %s" % (how, common), case)
 
     def oracle_frame(case, x, c, how):
+        try:
+            oracle_frame_(case, x, c, how)
+        except Exception as e:  # noqa
+            run.oracle_violation("%s: writing through / reading a copy raised %s: %s" % (how, type(e).__name__, e), case)
+
+    def oracle_frame_(case, x, c, how):
         """write through every mutable location of one side; the other must read the same as before"""
         for a, b in ((x, c), (c, x)):
             for o in list(inst_mutables(a).values()):
@@ -964,7 +982,12 @@ def main(run):
 
     nscen = run.scale(160, 1600)
     for idx in range(nscen):
-        scenario(idx)
+        try:
+            scenario(idx)
+        except Exception as e:  # noqa
+            import traceback
+            run.oracle_violation("scenario raised %s: %s" % (type(e).__name__, e), {"kind": "run", "index": idx},
+                                 observed=traceback.format_exc()[-1500:])
 
     # ---------------- toolbox scenarios ----------------
     lambdas = {100: (lambda *a, **k: ("call", 100, tuple(a), tuple(sorted(k.items(), key=lambda p: int(p[0][1:]))))),
@@ -1079,7 +1102,12 @@ def main(run):
         run.note_case(case, len(ops) > 3)
 
     for idx in range(run.scale(150, 1500)):
-        tool_scenario(idx)
+        try:
+            tool_scenario(idx)
+        except Exception as e:  # noqa
+            import traceback
+            run.oracle_violation("toolbox scenario raised %s: %s" % (type(e).__name__, e), {"kind": "toolbox", "index": idx},
+                                 observed=traceback.format_exc()[-1500:])
 
     # ---------------- fresh interpreter ----------------
     nfresh = 0
